@@ -139,10 +139,10 @@ def cases(ctx):
     c10 = _c10()
     rng = ctx.rng
     P = plan(ctx)
-    if not ctx.quick():   # three recipes per pair whose exact values are cheap
+    if not ctx.quick():   # two recipes per pair whose exact values are cheap
         def generators(fam, s):
             return 2 * s[0] * s[1] - s[0] - s[1] if fam == 'planar' else s[0] * s[1] - 1 if fam == 'rotatedplanar' else 6
-        P = [p for p in P for _ in range(3 if (p[4] and max(generators(p[0], s) for s in p[1]) <= 14) else 1)]
+        P = [p for p in P for _ in range(2 if (p[4] and max(generators(p[0], s) for s in p[1]) <= 14) else 1)]
     for fam, sizes, n_dists, n_cfgs, exact in P:
         h = make_history(ctx, fam, sizes, n_dists)
         cfgs = c10.all_configs(fam)
